@@ -5,8 +5,8 @@ import warnings
 from common import impl_error
 
 PROP = "C13"
-MODULES = ["C13"]
-GEN = ["Ipsc"]
+MODULES = ["C13", "C13t"]
+GEN = ["Ipsc", "TranslIpsc", "TranslBitsBytes"]
 MATCHERS = {}
 
 # member orders of tools/extract_ipsc.py (indices on the line protocol)
@@ -2060,6 +2060,169 @@ def check_corpus_held(ctx, kept):
     ctx.count("hist:kept-until-end-of-run", len(kept))
 
 
+# ------------------------------------------------------------------------------------------------
+# history / object-identity probes (harness/histories.py): both decoder paths, the object view and the serialiser, described once
+_HPOOL = []
+
+
+def ENTRY_POINTS():
+    import random as _random
+
+    import histories as H
+
+    burst_mod, HI, K = L()
+    # frames = captured frames with other header fields.  (Not make_pool / gen_frame: they decode captured frames with the library
+    # while building their pool, and the pristine-order probe needs an interpreter in which NO decoder call was made yet.)
+    captured = [bytes.fromhex(h) for h in CAPTURED if len(h) == 144]
+
+    def frame(rng):
+        b = bytearray(rng.choice(captured))
+        r = rng.random()
+        b[4] = rng.choice([0, 1, 127, 128, 255, rng.randrange(256)])
+        if r < 0.5:
+            b[16:18] = rng.choice(list(TS_VALUES.values())).to_bytes(2, "little")
+            b[63:66] = rand_id(rng).to_bytes(3, "little")
+            b[67:70] = rand_id(rng).to_bytes(3, "little")
+        if rng.random() < 0.3:
+            b[62] = rng.choice(list(CALL_VALUES.values()))
+        if rng.random() < 0.2:
+            b[18:20] = rng.choice(list(SLOT_VALUES.values())).to_bytes(2, "little")
+        if rng.random() < 0.3:
+            b[22:24] = rng.choice(list(FRAME_VALUES.values()) + [0x1234, 0xFFFF]).to_bytes(2, "little")
+        if rng.random() < 0.2:
+            b[8] = rng.choice(list(PACKET_VALUES.values()) + [0x7E])
+        return (bytes(b),)
+
+    def frame_near(args, rng):
+        """the same frame under every call type, under other slot / frame / packet types incl. undefined ones (type words select the
+        decoder branch: a cache or a class-level constant that omits or loses one of them shows between such neighbours)"""
+        fr = bytes(args[0])
+        if len(fr) != 72:
+            return []
+        out = []
+
+        def put(label, pos, val):
+            b = bytearray(fr)
+            b[pos:pos + len(val)] = val
+            out.append((label, (bytes(b),)))
+
+        for name, v in CALL_VALUES.items():
+            put(f"call type {name}", 62, bytes([v]))
+        for name in SLOT[::3]:
+            put(f"slot type {name}", 18, SLOT_VALUES[name].to_bytes(2, "little"))
+        for name, v in FRAME_VALUES.items():
+            put(f"frame type {name}", 22, v.to_bytes(2, "little"))
+        for v in (0x1234, 0xFFFF, 0x0001):
+            put(f"undefined frame type {v:04x}", 22, v.to_bytes(2, "little"))
+        for v in (0x7E, 0x02):
+            put(f"undefined packet type {v:02x}", 8, bytes([v]))
+        return out
+
+    def burst_view(b):
+        i = getattr(b, "hytera_ipsc", None)
+        return {"class": type(b).__name__, "fields": H.canon(b), "ipsc bytes": H.canon(call(i.as_ipsc_bytes)) if i is not None else None}
+
+    def obj_view(o):
+        return {"as_ipsc_bytes": H.canon(call(o.as_ipsc_bytes)), "fields": H.canon(o)}
+
+    def quiet(fn):
+        def run(*a):
+            with warnings.catch_warnings():
+                warnings.simplefilter("ignore")
+                return fn(*a)
+        return run
+
+    ser = lambda o: o.as_ipsc_bytes()  # noqa: E731
+    skip = ("_created",)
+    return [
+        H.EP("burst.from_hytera_ipsc(raw)", quiet(burst_mod.Burst.from_hytera_ipsc), frame, kind="parse", canon=burst_view, near=frame_near, domain="frame", edit_skip=skip, draws=3),
+        H.EP("burst.from_hytera_ipsc(generic parser)", quiet(lambda fr: burst_mod.Burst.from_hytera_ipsc(K.from_bytes(fr))), frame, kind="parse", canon=burst_view, near=frame_near, domain="frame", edit_skip=skip, draws=2),
+        H.EP("ipsc.from_ipsc_bytes", quiet(HI.from_ipsc_bytes), frame, kind="parse", canon=obj_view, serialise=ser, near=frame_near, domain="frame", draws=2),
+        H.EP("ipsc.from_kaitai", quiet(lambda fr: HI.from_kaitai(K.from_bytes(fr))), frame, kind="parse", canon=obj_view, serialise=ser, domain="frame"),
+    ]
+
+
+def run_transl(ctx):
+    """Differential validation of the source translator (tools/py2lean.py, py2lean_arr.py, py2lean_rec.py) and its preludes, trusted
+    base of Props/C13t: `HyteraIPSC.from_ipsc_bytes` / `as_ipsc_bytes` TRANSLATED from the source (`Gen/TranslIpsc.lean`, driver
+    operations `t.ip.*`) and the helpers of `Gen/TranslBitsBytes.lean` (`t.bb.*`) against the real code: frames of 72 octets with
+    member / non-member values in every enum field, buffers of other lengths (0..100: slices clamp), decode + re-serialise, and
+    objects built with boundary values (sequence 255 / 256 / -1, colour 15 / 16, ids 2^24 - 1 / 2^24, payload and reserved
+    attributes of other lengths).  A difference is a translator or prelude bug, never a finding about /repo."""
+    if ctx.search_only or not ctx.driver_ok:
+        return
+    from okdmr.dmrlib.hytera.hytera_ipsc import HyteraIPSC as _H
+    from okdmr.dmrlib.hytera.ipsc_elements.call_type import CallType as _CT
+    from okdmr.dmrlib.hytera.ipsc_elements.frame_type import FrameType as _FT
+    from okdmr.dmrlib.hytera.ipsc_elements.packet_type import PacketType as _PT
+    from okdmr.dmrlib.hytera.ipsc_elements.slot_type import SlotType as _ST
+    from okdmr.dmrlib.hytera.ipsc_elements.timeslot import Timeslot as _TS
+    from okdmr.dmrlib.utils.bits_bytes import byteswap_bytes as _sw, half_byte_to_bytes as _hb
+    rng = ctx.rng
+
+    def hx(b):
+        return bytes(b).hex() if len(b) else "-"
+
+    def idx(m):
+        return list(type(m)).index(m)
+
+    def sobj(o):
+        return " ".join([str(idx(o.call_type)), str(idx(o.frame_type)), str(idx(o.packet_type)), str(idx(o.slot_type)), str(idx(o.timeslot)),
+                         str(o.sequence_number), str(o.color_code), hx(o.payload), str(o.destination_radio_id), str(o.source_radio_id),
+                         hx(o.first_header), hx(o.second_header), hx(o.reserved_3), hx(o.reserved_7a), hx(o.reserved_2a), hx(o.reserved_2b),
+                         hx(o.reserved_1), hx(o.payload_pad)])
+
+    def res(f):
+        try:
+            with warnings.catch_warnings():
+                warnings.simplefilter("ignore")
+                return f()
+        except Exception as e:  # noqa
+            return impl_error(e)
+
+    def rb(n):
+        return bytes(rng.randrange(256) for _ in range(n))
+
+    def frame(valid):
+        n = rng.choice([72] * 6 + [0, 1, 10, 40, 71, 73, 100])
+        d = bytearray(rb(n))
+        if valid and n >= 72:
+            d[8] = rng.choice([65, 66, 67, 1, rng.randrange(256)])
+            d[16:18] = rng.choice([4369, 8738]).to_bytes(2, "little")
+            d[18:20] = rng.choice([m.value for m in _ST]).to_bytes(2, "little")
+            d[22:24] = rng.choice([m.value for m in _FT] + [rng.randrange(65536)]).to_bytes(2, "little")
+            d[62] = rng.choice([0, 1, 2, 12])
+        return bytes(d)
+
+    pairs = []
+    for _ in range(ctx.budget(600, 6000)):
+        d = frame(rng.random() < 0.8)
+        pairs.append(("t.ip.from " + hx(d), res(lambda: sobj(_H.from_ipsc_bytes(d)))))
+        pairs.append(("t.ip.ser " + hx(d), res(lambda: hx(_H.from_ipsc_bytes(d).as_ipsc_bytes()))))
+        ctx.count("transl:from_ipsc_bytes")
+        ctx.count("transl:as_ipsc_bytes")
+    for _ in range(ctx.budget(300, 3000)):
+        o = _H(call_type=rng.choice(list(_CT)), frame_type=rng.choice(list(_FT)), packet_type=rng.choice(list(_PT)),
+               slot_type=rng.choice(list(_ST)), timeslot=rng.choice(list(_TS)),
+               sequence_number=rng.choice([0, 1, 255, 256, -1, rng.randrange(256)]), color_code=rng.choice([0, 1, 15, 16, -1, rng.randrange(16)]),
+               destination_radio_id=rng.choice([0, 1, 2 ** 24 - 1, 2 ** 24, -1, rng.randrange(2 ** 24)]),
+               source_radio_id=rng.choice([0, 2 ** 24 - 1, 2 ** 24, rng.randrange(2 ** 24)]), payload=rb(rng.choice([33, 33, 33, 0, 1, 32, 34, 40])))
+        o.payload_pad = rb(rng.choice([1, 1, 0, 2]))
+        for a, k in (("first_header", 2), ("second_header", 2), ("reserved_3", 3), ("reserved_7a", 7), ("reserved_2a", 2), ("reserved_2b", 2), ("reserved_1", 1)):
+            if rng.random() < 0.5:
+                setattr(o, a, rb(rng.choice([k, k, 0, k + 2, k - 1])))
+        pairs.append(("t.ip.as " + sobj(o), res(lambda: hx(o.as_ipsc_bytes()))))
+        ctx.count("transl:as_ipsc_bytes")
+    for n in list(range(0, 12)) + [33, 34, 35]:
+        d = rb(n)
+        pairs.append(("t.bb.swap " + hx(d), res(lambda: hx(_sw(d)))))
+        ctx.count("transl:byteswap_bytes")
+    for h in range(-1, 18):
+        pairs.append((f"t.bb.half1 {h}", res(lambda: hx(_hb(h)))))
+        ctx.count("transl:half_byte_to_bytes")
+    ctx.correspond("transl", pairs)
+
+
 def run(ctx):
     patch_burst()
     del AMBIENT_SAMPLE[:]
@@ -2111,6 +2274,12 @@ def run(ctx):
         "failing ones) decoding the captured frames and every ninth in-range relation frame by both decoders, same verdict. "
         "Distinct = distinct frame octets / distinct histories."
     )
+    ctx.trusted_base += [
+        "tools/py2lean.py + py2lean_arr.py + py2lean_rec.py + extract_transl.py (source translator: Gen/TranslIpsc.lean, Gen/TranslBitsBytes.lean from inspect.getsource of "
+        "HyteraIPSC.from_ipsc_bytes / as_ipsc_bytes / __init__, byteswap_bytes, half_byte_to_bytes) and lean/DmrVerif/Model/Py.lean, PyArr.lean, PyRec.lean; validated on every "
+        "run by t.ip.* / t.bb.* (run_transl); Props/C13t proves the translated definitions equal to Model/Ipsc.lean",
+    ]
+    run_transl(ctx)
     ctx.trusted_base += [
         "Lean 4.33 kernel",
         "tools/extract_ipsc.py (calls the five IPSC enumerations on all 2^8 / 2^16 values, is_vocoder and is_wakeup on all members)",
@@ -2248,6 +2417,9 @@ def run(ctx):
             ctx.fail("held-result-changed", {"helper": fn, "argument": arg}, f"the octets returned by {fn} changed while the caller kept them", expected=first, actual=hx(r))
             break
     check_corpus_held(ctx, long_held)
+    import histories
+
+    histories.run(ctx, ENTRY_POINTS)
     if not ctx.search_only and ctx.driver_ok:
         ctx.correspond("histories (objects kept, re-stamped, decoded again, serialised)", hist_lines)
         ctx.correspond("Burst.from_hytera_ipsc (both paths)", views)
@@ -2261,6 +2433,10 @@ def replay(obj):
     fl = obj.get("failure") or {}
     inp = fl.get("input") or {}
     print(json.dumps(obj.get("type")), fl.get("what"))
+    if str(fl.get("kind", "")).startswith("history:"):
+        import histories
+
+        return histories.replay(inp, ENTRY_POINTS)
     if "data" in inp:
         from okdmr.dmrlib.utils.bits_bytes import byteswap_bytes
 
